@@ -108,6 +108,29 @@ def apply(src, edits, flags):
     changed = set()
     for kind, stride, phase, param in edits:
         stride = max(1, stride)
+        if kind == "symcaseall":
+            # every label name is re-spelled (upper / lower / swapped, chosen per name) on the selected lines only,
+            # so that definitions, uses and closing statements of one name differ in letter case
+            names = [n for n in labels if len(n) >= 2 and n.upper() != n.lower()]
+            if not names:
+                continue
+            table = {}
+            for n in names:
+                new = recase(n, (param + sum(map(ord, n))) % 3)
+                if new == n:
+                    new = recase(n, 2)
+                table[n] = new
+            pat = re.compile(r"(?<![A-Za-z0-9_.$@?\\{])(" + "|".join(re.escape(n) for n in sorted(names, key=len, reverse=True))
+                             + r")(?![A-Za-z0-9_.$@?}])")
+            for i, l in enumerate(lines):
+                if not l.ok or l.quote or i % stride != phase % stride:
+                    continue
+                nl, na = pat.sub(lambda m: table[m.group(1)], l.label), pat.sub(lambda m: table[m.group(1)], l.args)
+                if (nl, na) != (l.label, l.args):
+                    l.label, l.args = nl, na
+                    changed.add(i)
+                    stats["kinds"].add(kind)
+            continue
         if kind == "symcase":
             if not labels:
                 continue
